@@ -51,6 +51,9 @@ def parseOp (ws : List String) (coroMode : Bool) (ncoros : Nat) : Option Op :=
   | ["size", i] => (n i).map Op.size
   | ["empty", i] => (n i).map Op.empty
   | ["val", i] => (n i).map Op.value
+  | ["conv", i] => (n i).map Op.conv
+  | ["cconv", i] => (n i).map Op.cconv
+  | ["ares", i] => (n i).map Op.ares
   | _ => none
 
 def line (head : String) (s : State) (n0 : Nat) : String :=
@@ -59,14 +62,24 @@ def line (head : String) (s : State) (n0 : Nat) : String :=
 def doOp (s : State) (op : Op) : State × String :=
   let n0 := s.trace.length
   let (s1, r) := step s op
+  let vstr : String := match r with
+    | Res.num k => toString k
+    | Res.gone => "M"            -- a moved-from value
+    | _ => "?"
   let head := match r, op with
     | Res.bad, _ => "bad"
     | Res.handle none, _ => "pop noop"
     | Res.handle (some h), _ => s!"pop {h}"
-    | Res.num k, Op.value _ => s!"val {k}"
+    | Res.num k, Op.size _ => s!"size {k}"
+    | _, Op.value _ => "val " ++ vstr
+    | _, Op.conv _ => "conv " ++ vstr
+    | _, Op.cconv _ => "cconv " ++ vstr
+    | _, Op.ares _ => "ares " ++ vstr
+    | Res.unit, _ => "ok"
+    | _, Op.await _ _ => "aw " ++ vstr          -- co_await on a typed suspend point yields its value
     | Res.num k, _ => s!"size {k}"
     | Res.flag b, _ => "empty " ++ boolStr b
-    | Res.unit, _ => "ok"
+    | Res.gone, _ => "M"
   (s1, line head s1 n0)
 
 partial def loop (lines : Array String) (i : Nat) (st : Option (State × Bool × Nat)) : IO Unit := do
